@@ -18,7 +18,7 @@ git checkout -q -- . ; after_rc=$(run_demo)
 python3 - "$ID" "$applied" "$pristine_rc" "$mut_rc" "$after_rc" "$tests_line" "$mut_msg" "$(git -C /repo rev-parse --short HEAD)" <<'PY'
 import json, sys
 i, applied, p, m, a, tests, msg, head = sys.argv[1:9]
-ok = applied == "true" and p == "0" and m != "0" and a == "0" and "373 passed" in tests and "failed" not in tests
+ok = applied == "true" and p == "0" and m != "0" and a == "0" and "373 passed" in tests and not __import__("re").search(r"\b\d+ failed", tests) and " error" not in tests
 json.dump({"id": i, "repo_head": head, "patch_applies": applied == "true", "demo_exit_without_change": int(p), "demo_exit_with_change": int(m),
            "demo_exit_after_revert": int(a), "demo_message_with_change": msg, "test_suite_with_change": tests, "confirmed": ok,
            "ran": "scratch worktree of /repo HEAD: demo.py; git apply patch.diff; demo.py; pytest -q tests (full pinned suite); git checkout; demo.py"},
